@@ -12,6 +12,9 @@ pub struct ScriptSpec {
     pub script: String,
     /// Feed the script through `-c` (false: through standard input as a file).
     pub dash_c: bool,
+    /// Run the script as a command file (`sh /work/script.sh`); standard input
+    /// then holds `stdin`. Ignored when `dash_c`.
+    pub as_file: bool,
     /// Extra command-line options, e.g. ["-o", "pipefail"].
     pub options: Vec<String>,
     /// Files to create beforehand: (path, content, mode).
@@ -66,6 +69,10 @@ pub fn run_script_with(
         if spec.dash_c {
             args.push("-c".into());
             args.push(spec.script.clone());
+            w.set_stdin(&spec.stdin);
+        } else if spec.as_file {
+            w.put_file("/work/script.sh", spec.script.as_bytes(), 0o644);
+            args.push("/work/script.sh".into());
             w.set_stdin(&spec.stdin);
         } else {
             w.set_stdin(spec.script.as_bytes());
